@@ -92,7 +92,7 @@ def handle (ws : List String) : String :=
   | "flagisl" :: nn :: ms :: maxs :: nc :: eb :: su :: wcs =>
     match nn.toNat?, ms.toNat?, maxs.toInt?, nc.toNat?, b? eb, b? su, wcs.mapM b? with
     | some nn, some ms, some maxs, some nc, some eb, some su, some wcs =>
-      showNats (blindIslandFlags nn ms (if maxs < 0 then none else some maxs.toNat) nc eb su wcs)
+      showNats (blindIslandFlagsG nn ms (if maxs < 0 then none else some maxs.toNat) nc eb su wcs)
     | _, _, _, _, _, _, _ => "bad-op"
   | ["str", s, v, scale] =>
     match parseFloat? v, parseFloat? scale with
@@ -113,7 +113,7 @@ def handle (ws : List String) : String :=
     | _, _, _ => "bad-op"
   | ["flagr", inp, nf, wf, st] =>
     match inp.toNat?, b? nf, b? wf, st.toNat? with
-    | some inp, some nf, some wf, some st => toString (refitFlags inp nf wf st)
+    | some inp, some nf, some wf, some st => toString (refitFlagsG inp nf wf st)
     | _, _, _, _ => "bad-op"
   | ["palimit", x] =>
     match parseFloat? x with
